@@ -14,8 +14,13 @@ for d in sorted(glob.glob('/verif/seeded/*-*')):
         print("repo not clean; abort"); sys.exit(2)
     if subprocess.run(['git', '-C', '/repo', 'apply', patch]).returncode != 0:
         print(name, "patch does not apply"); continue
+    also = open(os.path.join(d, '.also')).read().split() if os.path.exists(os.path.join(d, '.also')) else []
+    also_res = {}
     try:
         out = subprocess.run(['/verif/check', prop, 'quick'], capture_output=True, text=True).stdout
+        for p2 in also:
+            o2 = subprocess.run(['/verif/check', p2, 'quick'], capture_output=True, text=True).stdout
+            also_res[p2] = sorted(set(re.findall(r'(?:VIOLATED|UNDECIDED) rule=(\S+)', o2)))
     finally:
         subprocess.run(['git', '-C', '/repo', 'checkout', '--', '.'])
     rules = sorted(set(re.findall(r'(?:VIOLATED|UNDECIDED) rule=(\S+)', out)))
@@ -33,9 +38,10 @@ for d in sorted(glob.glob('/verif/seeded/*-*')):
         'check_run': './check %s quick with the patch applied to /repo, reverted afterwards' % prop,
         'detected': detected,
         'reporting_rules': rules,
+        'also_reported_by_other_property_checks': also_res,
     })
     json.dump(meta, open(meta_path, 'w'), indent=1)
     rows.append((name, detected, rules))
-    print(name, 'DETECTED' if detected else 'MISSED', ' '.join(rules))
+    print(name, 'DETECTED' if detected else 'MISSED', ' '.join(rules), also_res if also_res else '')
 # the unchanged tree must be restored
 print(subprocess.run(['git', '-C', '/repo', 'status', '--porcelain', '--untracked-files=no'], capture_output=True, text=True).stdout or 'repo clean')
